@@ -5,7 +5,7 @@ package main
 // Implementation side of the graph / selection / query correspondences (C12, C19, C20).
 // API surface touched: dag.NewDirectedGraph, AddNode, AddEdge, GetAncestors, GetDescendants,
 // GetDependencies, GetDependants, GetNodes, LogSelectedNodes; selection.New, SelectTargetsForBuild,
-// SelectTargets, FilterNodes, StringToTargetTypeSelection; label.ParseTargetPattern;
+// SelectTargets, FilterNodes, StringToTargetTypeSelection; label.ParsePatternsOrMatchAll, ParseTargetPattern;
 // model.Target, model.Alias, model.PrintSortedLabels; config.Global.{OS,Arch,AllPlatforms}.
 
 import (
@@ -124,13 +124,15 @@ func buildSelReq(req map[string]any) (*selReq, string, error) {
 			return nil, "", fmt.Errorf("addedge")
 		}
 	}
+	// the pattern *set* goes through label.ParsePatternsOrMatchAll, as in cmds/build.go, test.go and list.go
+	// (an empty argument list stays an empty pattern list: `Selector` treats it as "everything")
 	var pats []label.TargetPattern
-	for _, s := range strList(req["patterns"]) {
-		p, err := label.ParseTargetPattern(b2s(req["cur"]), s)
+	if args := strList(req["patterns"]); len(args) > 0 {
+		parsed, err := label.ParsePatternsOrMatchAll(b2s(req["cur"]), args)
 		if err != nil {
 			return nil, "pattern", nil
 		}
-		pats = append(pats, p)
+		pats = parsed
 	}
 	typ, err := selection.StringToTargetTypeSelection(b2s(req["type"]))
 	if err != nil {
